@@ -69,7 +69,12 @@ PROP = {
             "(all Normal; first Bound; Bound,Normal,Bound,..; first BlockStake; mixed; thorough also first ATR) x signed by the attacker's own key / unsigned, zero "
             "amounts, delivered as a tag-4 message from the peer without handshake AND inside an otherwise valid re-signed fetched block, each followed by "
             "verification, consensus and a timer tick (many shapes per node; the node is re-created after a panic and every 40 shapes); any panic/stall is "
-            "reported under C11/<handler>/<site>/<tx type>-tx-<slip-count class>. Every handler call runs the real code under catch_unwind in a child "
+            "reported under C11/<handler>/<site>/<tx type>-tx-<slip-count class>. Then the BOUNDARY SWEEP (monitor-only as well): every integer field the suite sends on 0 / 1 / MAX-1 / MAX of its type — "
+            "input slip_index patterns 253,254,255 / 254,255,0 / 255,0,1 / 255,255,255 / 255,254,253 on Bound, Normal, BlockStake and ATR shapes that reach the "
+            "index comparisons; timestamp, txs_replacements, amounts, block_id, tx_ordinal of twelve base transaction shapes (message and fetched block); block ids "
+            "of ghost-chain requests, blockchain requests and header hashes x four fork-id patterns, before and after the handshake; ghost chains with boundary ids "
+            "and timestamps; api message index; handshake versions; every one of the 27 integer header fields of a fetched block (re-signed), the block id also on "
+            "2,3,5,10,2^32-1; the BlockFetched event's own block id. The worker runs under `ulimit -v`; a stalled sweep case is resumed at the next group. Every handler call runs the real code under catch_unwind in a child "
             "process with a 2.5 s watchdog. non-trivial = distinct step whose outcome is not `handled` (rejected, rate limited, disconnected, panic, stall)",
     "flags_measured": "12 site flags (1 iff the site's witness sequence no longer panics/stalls on the tree under test) + 3 outcome-class probes smrej / "
                       "smrejbrowser / smrejspv (1 iff a fetched block that spends a non-existent output is REJECTED by a full / browser / lite node); each witness "
